@@ -8,7 +8,22 @@ use cardano_serialization_lib as csl;
 use serde_json::{json, Value as J};
 use std::collections::{BTreeMap, BTreeSet};
 
+/// "rerun": "maxtx" | "maxval" asks for a second pass whose limit sits one byte below the largest transaction / output value the
+/// first pass produced, so that the splitting decisions are taken exactly at the boundary
 pub fn run_one(out: &mut Out, sc: usize, s: &J) {
+    let (smax, vmax) = run_pass(out, sc, s);
+    let mut s2 = s.clone();
+    match s.get("rerun").and_then(|x| x.as_str()) {
+        Some("maxtx") if smax > 1 => { s2["pp"]["maxtx"] = json!(smax as u64 - 1); }
+        Some("maxval") if vmax >= 40 => { s2["pp"]["maxval"] = json!(vmax as u64 - 1); }
+        _ => return,
+    }
+    s2.as_object_mut().unwrap().remove("rerun");
+    run_pass(out, sc, &s2);
+}
+
+fn run_pass(out: &mut Out, sc: usize, s: &J) -> (usize, usize) {
+    let (mut smax, mut vmax) = (0usize, 0usize);
     let pp = &s["pp"];
     let g = |k: &str, d: u64| pp.get(k).and_then(|x| x.as_u64()).unwrap_or(d);
     let cfg = csl::TransactionBuilderConfigBuilder::new()
@@ -59,7 +74,11 @@ pub fn run_one(out: &mut Out, sc: usize, s: &J) {
                         for k in vk.iter() { ft.sign_and_add_vkey_signature(&mk::sk(*k))?; }
                         for (k, m) in by.iter() { ft.sign_and_add_icarus_bootstrap_signature(&mk::byron_addr(*k, *m), &mk::bip32(*k))?; }
                         Ok(ft.to_bytes())
-                    }).to_json(|b| obj(vec![("bytes", jbytes(&b))]));
+                    });
+                    if let Outcome::Ok(b) = &signed { smax = smax.max(b.len()); }
+                    let outs = tx.body().outputs();
+                    for oi in 0..outs.len() { vmax = vmax.max(outs.get(oi).amount().to_bytes().len()); }
+                    let signed = signed.to_json(|b| obj(vec![("bytes", jbytes(&b))]));
                     txs.push(json!({"tx": jbytes(&tx.to_bytes()), "signed": signed}));
                 }
             }
@@ -69,6 +88,7 @@ pub fn run_one(out: &mut Out, sc: usize, s: &J) {
         Outcome::Panic(p) => json!({"ev": "BatchErr", "sc": sc, "panic": p}),
     };
     out.ev(ev);
+    (smax, vmax)
 }
 
 fn gen(rng: &mut Rng) -> J {
@@ -91,8 +111,10 @@ fn gen(rng: &mut Rng) -> J {
         if na == 0 && rng.chance(1, 12) { e["empty_ma"] = json!(true); }
         utxo.push(e);
     }
-    json!({"pp": {"a": 44, "b": 155381, "cpb": *rng.pick(&[4310u64, 4310, 34482, 1]), "maxval": *rng.pick(&[5000u64, 4000, 300, 150]), "maxtx": *rng.pick(&[16384u64, 8000, 2000, 1000])},
-           "target": {"kind": *rng.pick(&["ent", "base", "byron"]), "k": 15}, "utxo": utxo})
+    let mut scn = json!({"pp": {"a": 44, "b": 155381, "cpb": *rng.pick(&[4310u64, 4310, 34482, 1]), "maxval": *rng.pick(&[5000u64, 4000, 300, 150]), "maxtx": *rng.pick(&[16384u64, 8000, 2000, 1000])},
+           "target": {"kind": *rng.pick(&["ent", "base", "byron", "ptr"]), "k": 14 + rng.below(2)}, "utxo": utxo});
+    match rng.below(6) { 0 => { scn["rerun"] = json!("maxtx"); } 1 => { scn["rerun"] = json!("maxval"); } _ => {} }
+    scn
 }
 
 pub fn main(a: &Args) {
